@@ -129,6 +129,25 @@ Theorem C09_decaying_queue_tank_keeps_the_timetable : forall ops ops' t u, same_
 Proof. exact sq_run. Qed.
 Print Assumptions C09_decaying_queue_tank_keeps_the_timetable.
 
+(* re-initialisation (QueueTank.reinit, reached by Sewer.reinit / Storage.reinit / Model.reinit): what remains is an empty
+   tank of the same capacity and built-in delay to which every theorem above applies; the first push afterwards arrives
+   after exactly its delay, whatever the tank had been used for (bucket horizons of earlier pushes included) *)
+Theorem C09_reinit_leaves_an_empty_tank_with_the_same_timetable : forall t, plain t -> 0 <= a_cap (l_a (qt_l t)) ->
+  qt_ok (qt_reinit t) /\ sto (qt_reinit t) = vzero /\ act (qt_reinit t) = vzero /\
+  (forall k c, cmp c (bucket (qt_reinit t) k) == 0) /\ cap (qt_reinit t) = cap t /\ delay (qt_reinit t) = delay t /\
+  a_fin (l_a (qt_l (qt_reinit t))) = 0.
+Proof. exact qt_reinit_ok. Qed.
+Print Assumptions C09_reinit_leaves_an_empty_tank_with_the_same_timetable.
+
+Theorem C09_first_push_after_reinit_arrives_when_due : forall t v time T,
+  plain t -> 0 <= a_cap (l_a (qt_l t)) -> wet v -> eps <= vol v ->
+  let t0 := qt_reinit t in
+  let entered c := cmp c v - cmp c (snd (qt_push t0 v time false)) in
+  forall c, conserved c -> forall m,
+    cmp c (act (ends m (fst (qt_push t0 v time false)) T)) == (if Nat.leb (time + delay t) m then entered c else 0).
+Proof. exact qt_reinit_then_push. Qed.
+Print Assumptions C09_first_push_after_reinit_arrives_when_due.
+
 (* the hypotheses are met by a concrete non-trivial state *)
 Example C09_nonvacuous :
   let t := qt_init (10#1) (mkV (2#1) [1#2] [15#1]) 2 [] in
